@@ -42,6 +42,7 @@ func c07Base(class string, seed uint64) *vfScenario {
 		sc.Cfg["hopt"] = int64([]int{1, 1 | 2 | 4, 1 | 128, 0}[rng.IntN(4)])
 	}
 	sc.Cfg["sites"] = int64(1 + rng.IntN(3))
+	sc.Cfg["errwithdata"] = int64(rng.IntN(2))
 	g := &vfProgGen{rng: rng, kind: int(sc.Cfg["kind"])}
 	g.add(vfOp{K: "init", A: 3})
 	n := 2 + rng.IntN(16)
